@@ -144,7 +144,7 @@ theorem getLast?_none_iff {α} (r : List α) : r.getLast? = none ↔ r = [] := L
 theorem reSearch_space (v : Str) : PyPrim.reSearch "\\s" v = v.any isSpace := by simp [PyPrim.reSearch]
 theorem reSearch_invalid (v : Str) :
     PyPrim.reSearch "[+/-]" v = v.any (fun c => c == '+' || c == '/' || c == '-') := by simp [PyPrim.reSearch]
-theorem reMatch_fieldName (n : Str) : PyPrim.reMatch "^\\w+$" n = validFieldName n := by simp [PyPrim.reMatch]
+theorem reMatch_fieldName (n : Str) : PyPrim.reFullmatch "^\\w+$" n = validFieldName n := by simp [PyPrim.reFullmatch]
 
 /-! ### 5. one step per class -/
 
